@@ -536,13 +536,15 @@ func (g *Gen) resolve(b *Base, key string) string {
 	case bInit:
 		v = g.declare(sym(fmtf("%s@%d", key, b.id)), srt)
 	case bHavoc:
-		if isLocalKey(key) || (b.mods != nil && !b.mods[key]) {
+		if isLocalKey(key) || g.c.immutable[key] || (b.mods != nil && !b.mods[key]) {
+			// (an immutable field is written only inside objects still being built by the writer,
+			// see checkImmutables: no call changes it for an object this function can name)
 			v = g.get(b.keep, key)
 		} else {
 			v = g.declare(sym(fmtf("%s@%d", key, b.id)), srt)
 		}
 	case bLoop, bMerge:
-		if b.kind == bLoop && ((b.modAll && (b.modLocals || !isLocalKey(key))) || b.mods[key]) {
+		if b.kind == bLoop && ((b.modAll && !g.c.immutable[key] && (b.modLocals || !isLocalKey(key))) || b.mods[key]) {
 			v = g.declare(sym(fmtf("%s@%d", key, b.id)), srt)
 			break
 		}
@@ -864,6 +866,49 @@ func escapes(root ssa.Value, v ssa.Value) bool {
 	return false
 }
 
+// capturedCell reports whether free variable i of fn is, at every MakeClosure that builds fn,
+// bound to the address of a variable of the enclosing function (an Alloc, or the enclosing
+// function's own captured cell).
+func capturedCell(fn *ssa.Function, i int) bool {
+	par := fn.Parent()
+	if par == nil {
+		return false
+	}
+	if _, ok := fn.FreeVars[i].Type().Underlying().(*types.Pointer); !ok {
+		return false
+	}
+	found := false
+	for _, b := range par.Blocks {
+		for _, in := range b.Instrs {
+			mc, ok := in.(*ssa.MakeClosure)
+			if !ok || mc.Fn != fn {
+				continue
+			}
+			if i >= len(mc.Bindings) {
+				return false
+			}
+			switch bv := mc.Bindings[i].(type) {
+			case *ssa.Alloc:
+				found = true
+			case *ssa.FreeVar:
+				j := -1
+				for k, pf := range par.FreeVars {
+					if pf == bv {
+						j = k
+					}
+				}
+				if j < 0 || !capturedCell(par, j) {
+					return false
+				}
+				found = true
+			default:
+				return false
+			}
+		}
+	}
+	return found
+}
+
 func isFreeVar(v ssa.Value) bool { _, ok := v.(*ssa.FreeVar); return ok }
 
 // calledOnTheSpot: every use of the closure value is as the callee of a call (or, when nested in
@@ -982,8 +1027,13 @@ func (g *Gen) translate() {
 	for _, p := range fn.Params {
 		g.bindInput(p, "p_"+p.Name())
 	}
-	for _, p := range fn.FreeVars {
+	for i, p := range fn.FreeVars {
 		g.bindInput(p, "fv_"+p.Name())
+		if capturedCell(fn, i) {
+			// Go semantics: a captured variable lives in a cell allocated by the enclosing
+			// function; the closure's free variable is the address of that cell, never nil
+			g.global(fmtf("(> %s 0)", g.vals[p]))
+		}
 	}
 	g.cur = fn.Blocks[0]
 	g.emitSpecAxioms()
